@@ -479,7 +479,10 @@ fn main() {
             for _ in 0..n {
                 let (l, c) = g.next();
                 // after a rollback, look the group up under both nostr ids of its pool (the restored one and the abandoned one)
-                let follow: Vec<String> = if c == "Rollback" { let gi: u64 = l.split(' ').nth(2).unwrap().parse().unwrap(); vec![format!("ST FindByNostr {}", gi * 4), format!("ST FindByNostr {}", gi * 4 + 1)] } else { vec![] };
+                let follow: Vec<String> = if c == "SaveWelcome" {
+                    // pending-welcome pages right after a welcome changed state: small windows over a mix of pending and non-pending welcomes
+                    vec![format!("ST PendingWelcomes {} {}", 1 + g.r.below(3), g.r.below(4))]
+                } else if c == "Rollback" { let gi: u64 = l.split(' ').nth(2).unwrap().parse().unwrap(); vec![format!("ST FindByNostr {}", gi * 4), format!("ST FindByNostr {}", gi * 4 + 1)] } else { vec![] };
                 v.push((l, c));
                 for f in follow { v.push((f, "FindByNostr")); }
             }
